@@ -213,7 +213,7 @@ def parser_conformance(tier):
     """All strings over the token alphabet {NAME, items, +, *, ., :, ,, [, ]} (one NAME spelling per position, plus a
     whitespace variant) up to a length bound are fed to the shipped stand-alone LALR parser and to lark's Earley parser
     built from _dsl_grammar.lark at run time; accept/reject and the tree must agree."""
-    bound = 5 if tier == "quick" else 7
+    bound = 4 if tier == "quick" else 6
     t0 = time.time()
     helper = os.path.join(os.path.dirname(os.path.dirname(os.path.dirname(os.path.abspath(__file__)))), "bounded", "dsl_parser.py")
     repo = os.environ.get("VERIF_REPO", "/repo")
@@ -222,9 +222,10 @@ def parser_conformance(tier):
         res = json.loads(p.stdout.strip().splitlines()[-1])
     except Exception:
         res = dict(error=(p.stderr or p.stdout)[-1000:], cases=0, violations=[])
-    out = dict(what="generated LALR parser (_generated_parser.py) vs Earley on _dsl_grammar.lark: accept/reject and tree equality",
+    out = dict(what="generated LALR parser and the real parse()/compile_str() pipeline vs an Earley recogniser on _dsl_grammar.lark: accept/reject (ValueError), tree equality, and compiled graphs vs the documented meaning built from the oracle tree",
                label="bounded", bound="all token strings of length <= %d over 9 token kinds, each also with a whitespace variant" % bound,
-               cases=res.get("cases", 0), accepted=res.get("accepted"), secs=round(time.time() - t0, 1), violations=[])
+               cases=res.get("cases", 0), accepted=res.get("accepted"), secs=round(time.time() - t0, 1), violations=[],
+               known=res.get("known", []))
     if res.get("error"):
         out["error"] = res["error"]
     if res.get("violations"):
@@ -301,3 +302,74 @@ class HandleTreeDispatch(Contract):
                 as_val(cx, args[0], st) == children, args[1].t == info["n"] if isinstance(args[1], VBool) else z3.BoolVal(False))))
             out.append(("post:returns-the-handler-result", as_val(cx, payload, st) == e if isinstance(payload, VElem) else z3.BoolVal(False)))
         return out
+
+
+@register
+class Parse(Contract):
+    """parse(text): the text is handed to the grammar's parser exactly as given (so the language accepted is the
+    grammar's, whitespace rules included); a parser error becomes ValueError and nothing else does; the tree is
+    translated with notify=True (the last element notifies)."""
+    path = PATH
+    qualname = "parse"
+    properties = ("C15",)
+    assumptions = ("A-PY", "_LARK_PARSER.parse(text) returns the parse tree of text or raises a LarkError (generated parser: bounded stand-in)",
+                   "@lru_cache is transparent for a function of the text only")
+
+    def configure(self, cx, I, ov):
+        text = z3.String("text")
+        self.text = text
+        tree = z3.Const("tree", Val)
+
+        def parser_parse(I2, args, kwargs, st, k):
+            st2 = st.gset("parsed", st.ghost.get("parsed", ()) + (tuple(args),))
+            return k(VElem(tree), st2) + [("raise", VExc(cname="LarkError", origin=("parser",)), st2)]
+        parser = HObj("obj", None, "opaque_parser", {"parse": VFunc("opaque", name="parse", apply=parser_parse)})
+        pref = VRef(cx.new_oid())
+        self._parser = (pref, parser)
+        cx.module_globals["_LARK_PARSER"] = pref
+        EXC_PARENT.setdefault("LarkError", "Exception")
+
+        def getattr_hook(I2, obj, name, st, k):
+            if isinstance(obj, VModule) and obj.name.endswith("_generated_parser") and name == "LarkError":
+                return k(VExcClass("LarkError"), st)
+            return None
+        cx.getattr_hook = getattr_hook
+        orig_ma = I.bi.module_attr
+        I.bi.module_attr = lambda mod, name: VExcClass("LarkError") if name == "LarkError" else orig_ma(mod, name)
+        cx.module_globals["_generated_parser"] = VModule("traits.observation._generated_parser")
+
+        class HandleTree(Contract):
+            path = PATH
+            qualname = "_handle_tree"
+
+            def summary(self, I2, self_ref, args, kwargs, st, k):
+                e = I2.cx.fresh("expr", Val)
+                notify = args[1] if len(args) > 1 else kwargs.get("notify")
+                return k(VElem(e), st.gset("translated", st.ghost.get("translated", ()) + ((args[0], notify, e),)))
+        cx.contracts = dict(cx.contracts)
+        cx.contracts[(None, "_handle_tree")] = HandleTree()
+
+    def setup(self, cx, I, ov):
+        pref, parser = self._parser
+        st = St().put(pref.oid, parser)
+        return st, [VStr(self.text)], {}, dict(witness=dict(text=self.text))
+
+    def post(self, cx, I, ov, info, kind, payload, st):
+        parsed = st.ghost.get("parsed", ())
+        out = [("post:parser-called-once-with-the-text-as-given", z3.BoolVal(len(parsed) == 1 and len(parsed[0]) == 1 and isinstance(parsed[0][0], VStr)
+                                                                          and parsed[0][0].t is not None) if True else None)]
+        if len(parsed) == 1 and len(parsed[0]) == 1 and isinstance(parsed[0][0], VStr) and parsed[0][0].t is not None:
+            out.append(("post:text-reaches-the-parser-unchanged", parsed[0][0].t == self.text))
+        tr = st.ghost.get("translated", ())
+        if kind == "raise":
+            out.append(("raise:ValueError-exactly-for-a-parser-error", z3.BoolVal(payload.cname == "ValueError" and not tr)))
+        else:
+            ok = len(tr) == 1 and isinstance(tr[0][1], VBool)
+            out.append(("post:tree-translated-once-with-notify-true", z3.And(z3.BoolVal(ok), tr[0][1].t if ok else z3.BoolVal(False))))
+            if ok:
+                out.append(("post:returns-the-translation-of-the-parse-tree", z3.And(
+                    as_val(cx, tr[0][0], st) == z3.Const("tree", Val), as_val(cx, payload, st) == tr[0][2])))
+        return out
+
+    def covers(self, cx, ov, info):
+        return [("parses", lambda k, p, s: k == "return"), ("rejects", lambda k, p, s: k == "raise")]
